@@ -31,7 +31,8 @@ CLAIM = (
     "every pattern equals the probe's total intensity for 1..4 slices and 1..3 modes; fourier_projection returns a wave whose detector "
     "amplitude equals the measured amplitudes and is idempotent, single and mixed state, for signal scales 1e-4..30; and for every ordered pair "
     "(thorough: triple) of calls from an alphabet built to collide on coarse cache keys, the last call still obeys its identities, agrees with the same call "
-    "executed alone, and the propagators equal the closed-form Fresnel kernel of their own sampling. Exhaustive lattice exploration with the linearity "
+    "executed alone, and the propagators equal the closed-form Fresnel kernel of their own sampling; every accepted spelling of the shift and data arguments (dtype, container, shape, "
+    "layout; four shifting entry points) gives the answer of the canonical float32 spelling, a roll for integer values, and composes with a fractional shift. Exhaustive lattice exploration with the linearity "
     "argument is the right level: the data quantifier is closed by the basis, the defects live in shape parity, axis order and index handling."
 )
 NOTE = (
@@ -47,7 +48,7 @@ NOTE = (
 RULE = (
     "Cartesian product of the alphabets named in coverage.alphabet. A shift point is non-trivial when the shift is not zero, a pair when both are; a "
     "propagation point when the distance is not zero; an adjoint point when the index set has wrap-around or repeated indices or more than one patch; a "
-    "forward point always (object and probe are seeded, never uniform); a projection point when the measured amplitudes differ from the current ones; a call history when it has more than one call. "
+    "forward point always (object and probe are seeded, never uniform); a projection point when the measured amplitudes differ from the current ones; a call history when it has more than one call; a spelling when the library accepts it. "
     "distinct = distinct point descriptors."
 )
 
@@ -1075,13 +1076,15 @@ def spelling_key(sp):
         return "positions_other_array_library"
     if sp["shape"] == "2":
         return "positions_shape_(2,)"
+    if sp["pos_dtype"].startswith(("int", "uint")):
+        return "positions_integer_dtype"
+    if sp["pos_dtype"] == "float16":
+        return "positions_float16"
     if sp["layout"] != "contiguous":
         return "positions_" + sp["layout"]
     if sp["array_layout"] != "contiguous" or sp["array_dtype"] != "complex128":
         return "array_" + (sp["array_layout"] if sp["array_layout"] != "contiguous" else sp["array_dtype"])
-    if sp["pos_dtype"] == "float16":
-        return "positions_float16"
-    return "positions_integer_dtype" if sp["pos_dtype"].startswith(("int", "uint")) else "positions_" + sp["pos_dtype"]
+    return "positions_" + sp["pos_dtype"]
 
 
 def make_positions(sp, lib):
